@@ -76,7 +76,7 @@ TEXT.update({
                     'of convert to the universal mapper client for every operation sequence. The JSON/serde front end is outside the reach of the verifier and is trusted, which the level note says.'),
         design_ref='6.14', level_note=CONV_NOTE + ' ' + MAPPER_NOTE),
     'C13': dict(
-        technique='deductive verification (Verus): functional contracts on the converter (convert_row_to, find_right_shift, from_modifiers, reify_modifiers, build_combinations, the combination iterators, convert_single, convert_row, convert_alias, convert_mapping, adjust_repeats frame, convert) on the real code, against statement-level spec functions; the two tables by complete enumeration',
+        technique='deductive verification (Verus): functional contracts on the converter (convert_row_to, find_right_shift, from_modifiers, reify_modifiers, build_combinations, the combination iterators, convert_single, convert_row, convert_alias, convert_mapping, FromSet::new, adjust_repeats, convert) on the real code, against statement-level spec functions; the two tables by complete enumeration',
         level_text=('Proof, unbounded, of the expansion clauses for (trigger, output) pairs: convert ensures convert_shape - the result is, in source order, the pairs each source mapping stands for, followed only by identity '
                     'mappings appended by repeat-only entries (adjust_repeats leaves triggers and outputs of existing mappings alone). Per source mapping (pairs_of): an alias definition is itself a mapping unless it is a lone '
                     'modifier; a single mapping yields one pair per combination of alias definitions - every combination exactly once, in little-endian counting order (MultiplyIter / AliasCombinationIterator: handled + remaining = all) - '
@@ -84,8 +84,8 @@ TEXT.update({
                     'build_combinations ensures built) + the trigger key, output = the output modifiers with aliases replaced by the keys chosen on the trigger side + the output key; a row yields, per combination, one pair per '
                     'non-space letter in letter order (letters = the characters of the string, vstd knows chars().collect()), trigger = combination keys + the key in the letter\'s column of the physical row, output = output '
                     'modifiers + the Shift the character needs (right Shift iff the trigger contains right Shift) + the key of the character. The tables themselves (94 characters, 5 rows) are compared with the US-QWERTY layout '
-                    'for every Unicode scalar value and every row on every run (enumerative, complete). The alias table is tied to the source (find_alias_mappings ensures table_for: for every alias name exactly the definitions written for it, in source order); convert_single / convert_row also ensure the repeat mode (Special keys and row repeat letters converted like outputs) and the absorbing list of each mapping they produce. Not under contract: the trigger-set matching of the repeat-only pass (hence the repeat modes of the final layout), spelling equivalence (parser), and WHEN the converter accepts (all contracts read "r is Ok ==> ..."). '
-                    'Bounded stand-in for those three, never counted as proof: a fixed set of generated layout programs (150,000 quick / 4,000,000 thorough; same programs on every run) is loaded through the real parser + converter and compared, '
+                    'for every Unicode scalar value and every row on every run (enumerative, complete). The alias table is tied to the source (find_alias_mappings ensures table_for: for every alias name exactly the definitions written for it, in source order); convert_single / convert_row also ensure the repeat mode (Special keys and row repeat letters converted like outputs) and the absorbing list of each mapping they produce. The repeat-only pass is under contract too (convert ensures convert_full): FromSet::new yields the modifiers in ascending order + the final key, so two triggers share a table key exactly when they are the same trigger set (same final key, same modifiers in any order; lemma_fs_same over an assumed contract of sort); the trigger table lists exactly the first-pass mappings, each under its key; adjust_repeats ensures ar_rel: for each combination in order the first-pass mappings with the same trigger set get the entry\'s repeat mode (Special keys with aliases replaced), or an identity mapping is appended if there is none - so the repeat modes of the FINAL layout are determined. Not under contract: spelling equivalence (parser) and WHEN the converter accepts (all contracts read "r is Ok ==> ..."). '
+                    'Bounded stand-in for those two (it also re-checks everything else), never counted as proof: a fixed set of generated layout programs (150,000 quick / 4,000,000 thorough; same programs on every run) is loaded through the real parser + converter and compared, '
                     'mapping by mapping and acceptance included, with the expansion written out by hand in the harness (extra programs_bounded).'),
         design_ref='6.13', level_note=CONV_NOTE + ' Partial: the assumptions list the clauses that are not under contract.'),
     'C17': dict(
